@@ -2,7 +2,7 @@
     identity on integers; results of the integer readers are in range. *)
 From Coq Require Import ZArith NArith List Bool Lia.
 From Coq Require Import ZifyBool ZifyNat ZifyN.
-From Snel Require Import Base.Bytes Model.Float64 Model.RustText Model.Json.
+From Snel Require Import Base.Bytes Model.Float64 Model.RustText Model.JsonV7.
 Import ListNotations.
 Open Scope Z_scope.
 
